@@ -289,6 +289,111 @@ theorem addPattern_sim (acc : Plumb.FileTypeMap) (r p : String) (h : (acc.any fu
       · simp [addPattern, hk, h4]
       · simp [addPattern, hk, h5]
 
+/-! ### the model of `_make_file_type_map`: nothing is lost, nothing is invented -/
+
+/-- pattern `p` is in the list of reader `r` -/
+def Has (m : Plumb.FileTypeMap) (r p : String) : Prop := ∃ ps, (r, ps) ∈ m ∧ p ∈ ps
+
+theorem has_addPattern_self (acc : Plumb.FileTypeMap) (r p : String) : Has (addPattern acc r p) r p := by
+  induction acc with
+  | nil => exact ⟨[p], by simp [addPattern], by simp⟩
+  | cons e t ih =>
+    obtain ⟨k, ps⟩ := e
+    by_cases hk : k = r
+    · subst hk; exact ⟨ps ++ [p], by simp [addPattern], by simp⟩
+    · obtain ⟨qs, h1, h2⟩ := ih
+      exact ⟨qs, by simp [addPattern, hk, h1], h2⟩
+
+theorem has_addPattern_mono (acc : Plumb.FileTypeMap) (r p r' p' : String) (h : Has acc r' p') :
+    Has (addPattern acc r p) r' p' := by
+  induction acc with
+  | nil => obtain ⟨ps, h1, _⟩ := h; simp at h1
+  | cons e t ih =>
+    obtain ⟨k, ps⟩ := e
+    obtain ⟨qs, h1, h2⟩ := h
+    by_cases hk : k = r
+    · subst hk
+      simp only [List.mem_cons, Prod.mk.injEq] at h1
+      rcases h1 with ⟨rfl, rfl⟩ | h1
+      · exact ⟨qs ++ [p], by simp [addPattern], by simp [h2]⟩
+      · exact ⟨qs, by simp [addPattern, h1], h2⟩
+    · simp only [List.mem_cons, Prod.mk.injEq] at h1
+      rcases h1 with ⟨rfl, rfl⟩ | h1
+      · exact ⟨qs, by simp [addPattern, hk], h2⟩
+      · obtain ⟨qs', h3, h4⟩ := ih ⟨qs, h1, h2⟩
+        exact ⟨qs', by simp [addPattern, hk, h3], h4⟩
+
+theorem has_addPattern_inv (acc : Plumb.FileTypeMap) (r p r' p' : String) (h : Has (addPattern acc r p) r' p') :
+    Has acc r' p' ∨ (r' = r ∧ p' = p) := by
+  induction acc with
+  | nil =>
+    obtain ⟨ps, h1, h2⟩ := h
+    simp only [addPattern, List.mem_singleton, Prod.mk.injEq] at h1
+    obtain ⟨rfl, rfl⟩ := h1
+    simp at h2
+    exact Or.inr ⟨rfl, h2⟩
+  | cons e t ih =>
+    obtain ⟨k, ps⟩ := e
+    obtain ⟨qs, h1, h2⟩ := h
+    by_cases hk : k = r
+    · subst hk
+      simp only [addPattern, if_true, List.mem_cons, Prod.mk.injEq] at h1
+      rcases h1 with ⟨rfl, rfl⟩ | h1
+      · simp only [List.mem_append, List.mem_singleton] at h2
+        rcases h2 with h2 | rfl
+        · exact Or.inl ⟨ps, by simp, h2⟩
+        · exact Or.inr ⟨rfl, rfl⟩
+      · exact Or.inl ⟨qs, by simp [h1], h2⟩
+    · simp only [addPattern, hk, if_false, List.mem_cons, Prod.mk.injEq] at h1
+      rcases h1 with ⟨rfl, rfl⟩ | h1
+      · exact Or.inl ⟨qs, by simp, h2⟩
+      · rcases ih ⟨qs, h1, h2⟩ with ⟨qs', h3, h4⟩ | h3
+        · exact Or.inl ⟨qs', by simp [h3], h4⟩
+        · exact Or.inr h3
+
+/-- the loop keeps what the accumulator has and adds exactly the (reader, pattern) pairs of its arguments -/
+theorem has_groupLoop (split : String → Option (String × String)) (l : List String) (acc m : Plumb.FileTypeMap)
+    (h : groupLoop split l acc = some m) (r p : String) :
+    Has m r p ↔ Has acc r p ∨ ∃ a ∈ l, split a = some (r, p) := by
+  induction l generalizing acc with
+  | nil =>
+    simp only [groupLoop, Option.some.injEq] at h
+    subst h
+    simp
+  | cons a t ih =>
+    simp only [groupLoop] at h
+    cases hs : split a with
+    | none => rw [hs] at h; cases h
+    | some rp =>
+      obtain ⟨r0, p0⟩ := rp
+      rw [hs] at h
+      rw [ih _ h]
+      constructor
+      · rintro (h1 | ⟨b, hb, h2⟩)
+        · rcases has_addPattern_inv acc r0 p0 r p h1 with h3 | ⟨rfl, rfl⟩
+          · exact Or.inl h3
+          · exact Or.inr ⟨a, by simp, hs⟩
+        · exact Or.inr ⟨b, by simp [hb], h2⟩
+      · rintro (h1 | ⟨b, hb, h2⟩)
+        · exact Or.inl (has_addPattern_mono acc r0 p0 r p h1)
+        · simp only [List.mem_cons] at hb
+          rcases hb with rfl | hb
+          · rw [hs] at h2
+            simp only [Option.some.injEq, Prod.mk.injEq] at h2
+            obtain ⟨rfl, rfl⟩ := h2
+            exact Or.inl (has_addPattern_self acc r0 p0)
+          · exact Or.inr ⟨b, hb, h2⟩
+
+/-- a name is mapped iff some pattern of some entry matches it -/
+theorem mapped_iff_has (fnm : String → String → Bool) (m : Plumb.FileTypeMap) (name : String) :
+    Plumb.mapped fnm m name = true ↔ ∃ r p, Has m r p ∧ fnm name p = true := by
+  simp only [Plumb.mapped, Plumb.fileTypeOf, Option.isSome_map, List.find?_isSome, Plumb.patternFilter, List.any_eq_true]
+  constructor
+  · rintro ⟨e, he, p, hp, hf⟩
+    exact ⟨e.1, p, ⟨e.2, he, hp⟩, hf⟩
+  · rintro ⟨r, p, ⟨ps, h1, h2⟩, hf⟩
+    exact ⟨(r, ps), h1, p, h2, hf⟩
+
 theorem zipWith_entries (acc : Plumb.FileTypeMap) :
     List.zipWith (fun a b => Val.list [a, b]) (acc.map fun e => Val.str e.1) (acc.map fun e => strList e.2)
       = acc.map fun e => Val.list [.str e.1, strList e.2] := by
